@@ -2027,7 +2027,10 @@ func (d *DFA) SearchReverseLimited(cache *DFACache, haystack []byte, start, end,
 		lastMatch = lowerBound
 	}
 
-	if lowerBound > start && lastMatch < 0 {
+	// The scan reached the guard with the DFA still alive (dead states return
+	// above): a match found so far may extend further left than the guard allows,
+	// and no match so far may still become one. Either way the result is unknown.
+	if lowerBound > start {
 		return SearchReverseLimitedQuadratic
 	}
 
